@@ -188,7 +188,8 @@ DOMNode *DOMAttrMapImpl::setNamedItem(DOMNode *arg)
         }
         fNodes->insertElementAt(arg,i);
     }
-    if (previous != 0) {
+    // setting the very node that is already there changes nothing: it stays owned
+    if (previous != 0 && previous != arg) {
         castToNodeImpl(previous)->fOwnerNode = doc;
         castToNodeImpl(previous)->isOwned(false);
     }
